@@ -21,7 +21,7 @@ def run_op(w, op):
     if k == "begin":
         return w.begin(op["sess"], op["name"], op["redirect"])
     if k == "callback":
-        return w.callback(op["sess"], op["name"], op.get("state"), id_nonce=op.get("id_nonce", False), fail=op.get("fail", False))
+        return w.callback(op["sess"], op["name"], op.get("state"), id_nonce=op.get("id_nonce", False), fail=op.get("fail", False), id_iss=op.get("id_iss", ""))
     return w.advance(op["dt"])
 
 
@@ -53,7 +53,9 @@ def gen_history(rng, cfg, length):
                 elif other.startswith(name + "_") and state.startswith(other[len(name) + 1:] + "_"): name, state = other, state[len(other) - len(name):]
             idn = rng.choice([b[3], b[3], b[3], "wrong", None, False]) if cfg["openid"] else rng.choice([False, "x"])
             op = {"op": "callback", "sess": sess, "name": name, "state": state, "id_nonce": idn, "kind": kind, "fail": rng.random() < 0.2}
-            w.callback(sess, name, state, id_nonce=idn, fail=op["fail"])
+            if cfg["openid"] and rng.random() < 0.25:
+                op["id_iss"] = rng.choice(["/", "x", ".evil.example"])      # the ID token names another issuer than the registered provider
+            w.callback(sess, name, state, id_nonce=idn, fail=op["fail"], id_iss=op.get("id_iss", ""))
         else:
             op = {"op": "advance", "dt": rng.choice([10, 1800, 3601])}
             w.advance(op["dt"])
@@ -90,7 +92,12 @@ def directed(cfg):
             ops.append({"op": "callback", "sess": sess, "name": name, "state": state, "id_nonce": idn if cfg["openid"] else False, "kind": kind, "fail": fail})
             w.callback(sess, name, state, id_nonce=idn if cfg["openid"] else False, fail=fail)
         a = begin(0, n0)
-        if kind == "own": cb(0, n0, a["state"], a["url_nonce"])
+        if kind == "own":
+            cb(0, n0, a["state"], a["url_nonce"])
+            if cfg["openid"]:
+                b2 = begin(1, n0)
+                ops.append({"op": "callback", "sess": 1, "name": n0, "state": b2["state"], "id_nonce": b2["url_nonce"], "kind": kind, "fail": False, "id_iss": "/"})
+                w.callback(1, n0, b2["state"], id_nonce=b2["url_nonce"], id_iss="/")
         elif kind == "other-session": cb(1, n0, a["state"], a["url_nonce"]); cb(0, n0, a["state"], a["url_nonce"])
         elif kind == "other-provider": cb(0, n1, a["state"], a["url_nonce"]); cb(0, n0, a["state"], a["url_nonce"])
         elif kind == "absent": cb(0, n0, None, a["url_nonce"])
@@ -215,10 +222,13 @@ def oracle(c, out):
                 if c["pkce"] and (not o["sent"]["verifier"] or cw.s256(o["sent"]["verifier"]) != b["url_challenge"]):
                     bad("code_verifier sent to the token endpoint does not match the code_challenge of the authorization request of this state", kind="wrong-verifier")
                 if c["openid"] and op.get("id_nonce") is not False and not op.get("fail"):
-                    want = "validated" if op["id_nonce"] == b["url_nonce"] else "rejected"
+                    want = "validated" if op["id_nonce"] == b["url_nonce"] and not op.get("id_iss") else "rejected"
                     if not o["id_token"].startswith(want):
-                        bad(f"ID token with nonce {op['id_nonce']!r} was {o['id_token']} although the authorization request of this state sent nonce {b['url_nonce']!r}",
-                            kind="wrong-nonce")
+                        if op.get("id_iss") and op["id_nonce"] == b["url_nonce"]:
+                            bad(f"ID token issued by 'https://{op['name']}.example{op['id_iss']}' was {o['id_token']} by the client registered for 'https://{op['name']}.example'", kind="wrong-issuer")
+                        else:
+                            bad(f"ID token with nonce {op['id_nonce']!r} was {o['id_token']} although the authorization request of this state sent nonce {b['url_nonce']!r}",
+                                kind="wrong-nonce")
         elif o.get("out") in ("mismatch", "oauth_error"):
             if o.get("requests"):
                 bad("a request reached the provider although the callback was refused", kind="request-before-mismatch")
@@ -232,7 +242,7 @@ def classify(c, out):
 
 
 def nontrivial(c, out):
-    return (c["fw"], c["cache"], c["pkce"], c["openid"], c.get("oauth1", False), c.get("rotate", False), [(o["op"], o.get("sess"), o.get("name"), o.get("state"), o.get("id_nonce"), o.get("fail")) for o in c["ops"]])
+    return (c["fw"], c["cache"], c["pkce"], c["openid"], c.get("oauth1", False), c.get("rotate", False), [(o["op"], o.get("sess"), o.get("name"), o.get("state"), o.get("id_nonce"), o.get("fail"), o.get("id_iss")) for o in c["ops"]])
 
 
 def search(breaks, rng, known, match_known):
